@@ -4,11 +4,13 @@ import RpmVerif.Props.C13
 import RpmVerif.Props.C15
 import RpmVerif.Props.C16
 import RpmVerif.Props.C18
+import RpmVerif.Props.C19
 import RpmVerif.Props.C20
 import RpmVerif.Driver.C01
 import RpmVerif.Driver.C13
 import RpmVerif.Driver.C15
 import RpmVerif.Driver.C16
 import RpmVerif.Driver.C18
+import RpmVerif.Driver.C19
 import RpmVerif.Driver.C20
 import RpmVerif.Driver.Common
